@@ -89,7 +89,7 @@ func isStoreTrueTo(f *types.Var) instrPred {
 			return false
 		}
 		callee := c.StaticCallee()
-		if callee == nil || (callee.Name() != "Store" && callee.Name() != "CompareAndSwap") {
+		if callee == nil || (fnBase(callee) != "Store" && fnBase(callee) != "CompareAndSwap") {
 			return false
 		}
 		fa, ok := c.Args[0].(*ssa.FieldAddr)
